@@ -1,7 +1,7 @@
 /-
   C17 — VRF import/export and Route Target Constraint (RFC 4364 / RFC 4684) as gobgp does it.
 
-  Mirrors (code as it is on branch wt-C17, i.e. with the six C17 fix commits):
+  Mirrors (code as repaired by the seven C17 fix commits):
     bgp.go   ExtCommRouteTargetKey, RouteTargetMembershipNLRI.RouteTargetKey   -> rtKey / Mem.rt
     policy.go isTransitiveType, CanImportToVrf                                 -> isTransitive / canImport
     path.go  (*Path).ToLocal (VPNv4), (*Path).ToGlobal (IPv4 unicast)          -> toLocal / toGlobal
@@ -21,7 +21,10 @@
 
   Abstractions: an extended community is its 8-octet wire form as a number; Go maps are
   duplicate-free lists (nested maps flattened to lists of pairs) or total functions; pointer
-  identity of a stored path (originInfo) is the `uid` given to every announcement; the best-path
+  identity of a *Path object is its `uid`, the identity of the announcement it was cloned from (the
+  root originInfo, key of the RT index) its `root`: a path fed again as it is (soft reset in without a
+  modifying policy) keeps both, a fresh clone of the same Adj-RIB-In path (soft reset in with a
+  modifying policy) has a new uid and the same root; the best-path
   comparator is replaced by `pref` (higher wins; the harness makes preferences of different
   (source, path-id) slots of one destination distinct by LOCAL_PREF).
 -/
@@ -53,7 +56,8 @@ def keys (ecs : List EC) : List Nat := ecs.filterMap rtKey
 
 /-- a VPNv4 path as stored in the global table -/
 structure VPath where
-  uid    : Nat        -- identity of the announcement (originInfo pointer)
+  uid    : Nat        -- identity of the path object (pointer)
+  root   : Nat        -- identity of the announcement (root originInfo pointer, shared by clones)
   src    : Nat        -- source peer (0 = local)
   pathId : Nat        -- remoteID
   rd     : Nat
@@ -70,6 +74,7 @@ def VPath.nlri (p : VPath) : Nat × Nat := (p.rd, p.pfx)
 /-- a plain IPv4 path as a VRF neighbor sees it / announces it -/
 structure LPath where
   uid    : Nat
+  root   : Nat
   src    : Nat
   pathId : Nat
   pfx    : Nat
@@ -101,13 +106,13 @@ def canImport (v : Vrf) (ecs : List EC) : Bool :=
 /-- path.go ToLocal for RF_IPv4_VPN: plain prefix, ALL extended communities dropped
     (`delPathAttr(BGP_ATTR_TYPE_EXTENDED_COMMUNITIES)`), ids kept -/
 def toLocal (p : VPath) : LPath :=
-  { uid := p.uid, src := p.src, pathId := p.pathId, pfx := p.pfx, pref := p.pref, marker := p.marker,
+  { uid := p.uid, root := p.root, src := p.src, pathId := p.pathId, pfx := p.pfx, pref := p.pref, marker := p.marker,
     ecs := [] }
 
 /-- path.go ToGlobal for RF_IPv4_UC: NLRI gets the VRF's RD and label, `SetExtCommunities(vrf.ExportRt,
     false)` appends the export targets to whatever the route carried -/
 def toGlobal (v : Vrf) (l : LPath) : VPath :=
-  { uid := l.uid, src := l.src, pathId := l.pathId, rd := v.rd, pfx := l.pfx, label := v.label,
+  { uid := l.uid, root := l.root, src := l.src, pathId := l.pathId, rd := v.rd, pfx := l.pfx, label := v.label,
     pref := l.pref, marker := l.marker, ecs := l.ecs ++ v.exports }
 
 /-- destination.Select with a VRF option: known paths that can be imported, converted -/
@@ -144,7 +149,7 @@ def interested (s : Rtm) (ecs : List EC) : Bool := s.has 0 || (keys ecs).any (fu
 abbrev Idx := List (Nat × VPath)
 
 /-- vpnPathKey{info, pathID} -/
-def pkey (p : VPath) : Nat × Nat := (p.uid, p.pathId)
+def pkey (p : VPath) : Nat × Nat := (p.root, p.pathId)
 
 def Idx.del (i : Idx) (k : Nat) (p : VPath) : Idx :=
   i.filter (fun e => !(e.1 == k && pkey e.2 == pkey p))
@@ -186,8 +191,19 @@ def calcDest (l : List VPath) (p : VPath) (wd : Bool) : List VPath × Option VPa
 
 def uidOf (o : Option VPath) : Option Nat := o.map (·.uid)
 
+/-- Path.Equal as Update.GetChanges uses it (`best.Equal(old)`): the same object, or the same
+    source, attributes and NLRI (here: everything but the two identities) -/
+def VPath.sameAs (a b : VPath) : Bool :=
+  a.uid == b.uid || ({ a with uid := 0, root := 0 } == { b with uid := 0, root := 0 })
+
+def sameAsHead (old : Option VPath) (b : VPath) : Bool :=
+  match old with
+  | some o => b.sameAs o
+  | none => false
+
 /-- table.go updateVPNIdx (fixed): the index holds the best path of the destination plus every
-    path with a non-zero path-id -/
+    path with a non-zero path-id. `uidOf … == some x.uid` are the pointer comparisons of the Go code;
+    `newBest == oldPath` is the same path object fed again -/
 def updateIdx (i : Idx) (oldL newL : List VPath) (p : VPath) (wd : Bool) (oldPath : Option VPath) : Idx :=
   let oldBest := oldL.head?
   let newBest := newL.head?
@@ -201,7 +217,7 @@ def updateIdx (i : Idx) (oldL newL : List VPath) (p : VPath) (wd : Bool) (oldPat
     | none => i1
   let i3 := if !wd && p.pathId != 0 then i2.register p else i2
   match newBest with
-  | some nb => if uidOf oldBest != some nb.uid then i3.register nb else i3
+  | some nb => if uidOf oldBest != some nb.uid || uidOf oldPath == some nb.uid then i3.register nb else i3
   | none => i3
 
 /-- one VPN table: destinations (a total map, `[]` = absent), the NLRIs ever touched (for the
@@ -245,7 +261,7 @@ def rtcFilter (s : Rtm) (path : VPath) (isWd : Bool) (old : Option VPath) : List
 /-- Update.GetChanges + processOutgoingPaths for one destination whose list went from oldL to newL -/
 def onTableChange (s : Rtm) (oldL newL : List VPath) : List Msg :=
   match newL.head? with
-  | some b => if uidOf oldL.head? == some b.uid then [] else rtcFilter s b false oldL.head?
+  | some b => if sameAsHead oldL.head? b then [] else rtcFilter s b false oldL.head?
   | none => match oldL.head? with
     | none => []
     | some o => rtcFilter s o true (some o)
@@ -295,7 +311,7 @@ def vrfFilter (v : Vrf) (path : VPath) (isWd : Bool) (old : Option VPath) : List
 
 def ceOnTableChange (v : Vrf) (oldL newL : List VPath) : List LMsg :=
   match newL.head? with
-  | some b => if uidOf oldL.head? == some b.uid then [] else vrfFilter v b false oldL.head?
+  | some b => if sameAsHead oldL.head? b then [] else vrfFilter v b false oldL.head?
   | none => match oldL.head? with
     | none => []
     | some o => vrfFilter v o true (some o)
